@@ -398,8 +398,9 @@ class FiltersSet:
         newname = self._unicode_filter_name(newname)
         if newname != oldname and self.filter_exists(newname):
             raise FilterAlreadyExists
+        content = self.__create_filter(conditions, actions, matchtype)
         filter_def["name"] = newname
-        filter_def["content"] = self.__create_filter(conditions, actions, matchtype)
+        filter_def["content"] = content
         if not filter_def["enabled"]:
             return self.disablefilter(newname)
         return True
@@ -574,8 +575,9 @@ class FiltersSet:
         for f in self.filters:
             if f["name"] != name:
                 continue
-            ifcontrol.addchild(f["content"])
-            f["content"] = ifcontrol
+            if not self.__isdisabled(f["content"]):
+                ifcontrol.addchild(f["content"])
+                f["content"] = ifcontrol
             f["enabled"] = False
             return True
         return False
